@@ -6,11 +6,19 @@ Relations
            text; the PVAR in the same, possibly unsorted, record order), one query (region / samples /
            ids / max_variants / chunk size); haptools' read(), read(restricted) and
            __iter__(restricted) observed for both formats (the VCF reader gets the query without its
-           region when the file has no index)
+           region when the file has no index - or, now and then, with it: htslib refuses).  The region
+           is handed to the readers AND to the model as text; contig names are C08_Region.enc numbers,
+           so the model parses the text itself (htslib's rules, GenotypesPLINK's re.split or the
+           repaired parser - switch STRICT_REGION_CONTIG_NAMES); contig names with ':' and '-' occur.
+           A width-boundary stream (read_boundary_cases) is part of every run.
   subset : Genotypes.subset(samples, variants) on an in-memory object
   seq    : one file (VCF/BCF or PGEN), read(), read(restricted), full.subset(what the restricted read
            returned), then 1-4 subset() calls on the loaded object (in place / copy and continue with
            the copy / copy and stay), the object dumped before every call
+  cmdfmt : one content as .vcf.gz+tbi and as .pgen, one command (transform, ld, ld --from-gts,
+           simphenotype --seed, clump) run on each with the same options (--region, --sample, --id,
+           --chunk-size, ...); the read() each run made on the genotypes file is recorded (arguments and
+           the object it left: compared with the model) and the parsed outputs must be equal
 """
 import logging
 import os
@@ -25,46 +33,87 @@ from .c07 import ALPH, Enc, build_obj, dump_obj, oerr
 
 PROP = "C08"
 CLAIMED = True
-COQ_MODULES = ["C08_Check", "C08_Proofs", "C08_Proofs2"]
+COQ_MODULES = ["C08_Region", "C08_Check", "C08_Proofs", "C08_Proofs2", "C08_Proofs3"]
 PROPERTY_MODULE = "C08_Property"
 ALLOWED_AXIOMS = []
 RULE = (
-    "read: contents of 1-5 samples x 0-8 variants on 1-3 contigs (equal positions and multi-base REF alleles occur); "
+    "read: contents of 1-5 samples x 0-8 variants on 1-3 contigs (equal positions and multi-base REF alleles occur); in "
+    "30% of the contents the contig names hold ':' and '-' and other legal punctuation (HLA-DRB1, HLA-A*01:01:01:01, "
+    "chrUn_KI270-1 beside chrUn_KI270, 6:7, 1-2, b-, :e, random ones), 3% repeat a variant ID (outside the domain: "
+    "compared with the model only); "
     "file order of the records: coordinate-sorted (55%), positions in any order within a contig block, sorted runs "
     "re-arranged so that a contig occurs in several blocks, or fully shuffled - the PVAR always has that order, the "
     "VCF/BCF is indexed only when the order allows it (and left un-indexed now and then when it does; then the VCF "
-    "reader gets the query without its region); queries mixing region forms 'c', 'c:a-b', 'c:a-' with a/b on, between "
+    "reader gets the query without its region, or - 15% of those - with it); queries mixing region forms 'c', 'c:a-b', "
+    "'c:a-' (as text, canonically printed) with a/b on, between "
     "(+-1) and outside variant positions and absent contigs, sample subsets with unknown names, ID subsets with unknown "
-    "IDs / no match / the empty set, max_variants 0..p+2, PGEN chunk sizes None,1..p+1. Non-trivial = the query "
+    "IDs / no match / the empty set, max_variants 0..p+2, PGEN chunk sizes None,1..p+1; in every run the width-boundary "
+    "stream: 127|128|255|256 and 129|257|300 samples, 1000|1001 samples, 255|256|257 variants with chunk sizes and "
+    "max_variants beside them, max_variants 255..65536 over a 5-variant file, positions 2^31-3 and 2^31-2 with region "
+    "bounds on and beyond 2^31-1 (thorough: all of them). Non-trivial = the query "
     "restricts something (drops at least one row or column, or matches nothing). subset: objects of 1-5 x 0-6 with "
-    "requested tuples that permute, repeat and contain unknown names. seq: contents as for read (<= 6 variants), the "
+    "requested tuples that permute, repeat and contain unknown names; in every run objects of 129|257 samples resp. "
+    "variants with requests on both sides of 127|128 and 255|256. seq: contents as for read (<= 6 variants, plain contig "
+    "names), the "
     "read unrestricted (45%) or restricted by a query as above, then 1-4 subset() calls whose samples=/variants= are "
     "drawn from the names the object holds at that point: all of them re-ordered, a part in any order, with names "
     "that were dropped by an earlier call or never existed, a name twice, the empty tuple, None; each call in place "
     "(50%) or copying, the caller continuing with the copy or not. Non-trivial = at least two calls were made or the "
-    "read was restricted. Distinct = distinct canonical JSON."
+    "read was restricted. cmdfmt: 3-8 samples x 3-8 biallelic SNPs on 1-2 contigs (15% with ':'/'-' names), every "
+    "non-missing call phased; 30% of the contents carry a flaw the commands refuse (a missing call, an unphased "
+    "heterozygote, a third allele); 1-4 haplotypes over the variants; the five commands in turn with --region (60%), "
+    "--sample (50%, an unknown name now and then), --chunk-size (60%), --id / --discard-missing / --maf / TARGET / "
+    "effects / p-values as the command takes them. Non-trivial = the VCF run wrote at least one record. "
+    "Distinct = distinct canonical JSON."
 )
 TRUSTED = [
     "htslib region queries return, in file order, the records whose [pos, pos+len(REF)-1] overlaps the region (model "
-    "in_region_vcf); pgenlib returns stored calls by variant index (C07 contracts); both exercised on every run",
-    "the test files (.vcf.gz+.tbi or .bcf+.csi, .pgen/.pvar/.psam) are written with pysam / pgenlib / plain text by the "
-    "harness, not with haptools",
-    "harness transposes haptools' sample-major array to variant-major rows; strings are interned per case",
+    "in_region_vcf), and read a region text by trying the whole string as a contig name of the header, else cutting at the "
+    "LAST colon (model C08_Region.hts_region; only plain-decimal positions are modelled); pgenlib returns stored calls by "
+    "variant index (C07 contracts); all exercised on every run",
+    "the test files (.vcf.gz+.tbi or .bcf+.csi, .pgen/.pvar/.psam, .hap, .snplist, summary statistics) are written with "
+    "pysam / pgenlib / plain text by the harness, not with haptools",
+    "harness transposes haptools' sample-major array to variant-major rows; strings are interned per case, except contig "
+    "names in read / cmdfmt, which are written as C08_Region.enc numbers (theorem C08_contig_enc_injective)",
+    "cmdfmt: the harness wraps Genotypes.read / GenotypesPLINK.read to record the arguments a command hands to the reader "
+    "and the object the read leaves; output files are compared as tab-separated tokens (the separator of a homozygous GT "
+    "is immaterial); for the base class Genotypes (no alleles loaded) the alleles are taken from the content",
 ]
 ASSUMPTIONS = [
-    "domain: sample names and variant IDs are unique within a file; contig names are alphanumeric; the ID and sample "
-    "restrictions are Python sets; max_variants >= 0; chunk sizes >= 1 or None",
+    "domain: sample names and variant IDs are unique within a file (a file that repeats an ID is generated and compared "
+    "with the model, not judged: both readers stop after len(IDs) matches, so {v1, v3} over v1, v2, v1, v3 returns v1, v1; "
+    "htslib refuses a VCF header that repeats a sample name, a .psam may repeat one and GenotypesPLINK keeps both columns); "
+    "the ID and sample restrictions are Python sets; max_variants >= 0; chunk sizes >= 1 or None",
+    "contig names are VCF-legal (no white space, printable ASCII) and may contain ':' and '-'; a region text has ONE "
+    "reading: the file holds no contig named like the other reading of the text (C08_Region.unambiguous: for 'c' the text "
+    "before the last colon of c, for 'c:a-b' the whole text) - htslib refuses such a text as ambiguous, the repaired PGEN "
+    "reader returns both readings; two contigs of a file, and the contig of the region, differ within their first 10 "
+    "characters (haptools keeps 10 characters of a contig name in a loaded object: C07's domain; the model cuts likewise, "
+    "theorem C08_contig_cut_to_10)",
+    "open finding behind STRICT_REGION_CONTIG_NAMES (off = the tree as it is): GenotypesPLINK cuts the region text at every "
+    "':' and '-'; while the switch is off a text which that parser does not read as the region that was meant is compared "
+    "with the model of that parser and not held against the PGEN reader (theorems C08_misread_spec / _plain / _fixed say "
+    "exactly what is excused)",
     "region bounds on a record whose REF allele is longer than one base: either reading (overlap / position) is accepted "
     "by holds; cross-format equality of region reads is checked only when every REF is one base long or the region is a "
     "whole contig",
     "a sample restriction that selects no sample at all is checked like every other empty match since fix 1b2885e "
     "(no sample, no call, a warning, no exception; switch STRICT_EMPTY_SAMPLE_SELECTION, on by default)",
     "a region is only given to the VCF reader when the file has an index (htslib needs one; an un-indexed or unsorted "
-    "file is read with the sample / ID / max_variants restrictions only); the PGEN reader gets every query",
+    "file is read with the sample / ID / max_variants restrictions only) - except in the class vcf-unindexed-region-given, "
+    "where it is given all the same: an exception from both read() and the iterator is accepted (AssertionError 'error "
+    "loading tabix/csi index'), a result would have to be the right one; the PGEN reader gets every query",
     "seq: a subset() call made on the object of a VCF read that matched nothing (array of shape (0, 0, 0) beside the "
     "samples found) is checked like every other subset() since fix 09a826e (switch "
     "STRICT_SUBSET_AFTER_EMPTY_READ, on by default); calls made on an object with duplicate names (left by a request that "
     "repeats a name) are outside the domain (ValueError, compared by agree)",
+    "cmdfmt: 'the same content' spells a homozygous call as phased in the VCF (0|0): pgenlib reports every homozygous call "
+    "as phased, so a VCF with 0/0 calls is refused by check_phase while its PGEN twin is accepted - outside the relation; "
+    "the same result = the same exit code and exception kind and the same output records (messages name the input file and "
+    "are not compared); open finding behind STRICT_CMD_EMPTY_LOAD (off = the tree as it is): when the command's read matches "
+    "nothing the two loads differ in shape ((0, 0, 0) vs (n, 0, 3)) and simphenotype prints no sample for the VCF, n "
+    "noise-only phenotypes for the PGEN; such runs are not held against the command while the switch is off "
+    "(theorems C08_empty_excused_spec, C08_read_shapes_agree)",
 ]
 
 
@@ -97,11 +146,79 @@ STRICT_EMPTY_SAMPLE_SELECTION = os.environ.get("HV_C08_STRICT_EMPTY_SAMPLE_SELEC
 # Also settable with HV_C08_STRICT_SUBSET_AFTER_EMPTY_READ=1.
 STRICT_SUBSET_AFTER_EMPTY_READ = os.environ.get("HV_C08_STRICT_SUBSET_AFTER_EMPTY_READ", "1") == "1"
 
+# Switch for the integrator: GenotypesPLINK._iterate_variants splits the region text with re.split(":|-", region):
+# a contig name that contains '-' or ':' (HLA-DRB1, HLA-A*01:01:01:01, chrUn_KI270-1, 6:7 - all legal VCF/PVAR contig
+# names, read correctly by htslib, i.e. by the VCF reader) is cut into pieces: ValueError from int('DRB1'), TypeError
+# (three numbers splatted into _check_region), or silently the records of ANOTHER contig / no record
+# (region 'chrUn_KI270-1' returns chrUn_KI270 from position 1 on; region '1-2' returns contig 1 from position 2 on).
+# False (default) = the tree as it is: the model is that parser (C08_Region.parse_legacy; agree compares the kinds and
+# the wrong records), holds does not hold a region text which that parser misreads against the PGEN reader.
+# True = after fixes/C08_region_contig_names.patch: model C08_Region.parse_fixed (whole string, or the text before the
+# LAST colon with the numbers after it), holds demands the records of the region for every contig name.  Flipping it
+# on the unrepaired tree yields
+#   VIOLATION property=C08 ...  signature "read: pgen read raised ValueError; pgen iter raised ValueError;
+#   ... region-contig-has-colon-or-dash=True"
+# Also settable with HV_C08_STRICT_REGION_CONTIG_NAMES=1.
+STRICT_REGION_CONTIG_NAMES = os.environ.get("HV_C08_STRICT_REGION_CONTIG_NAMES", "1") == "1"
+
+# Switch for the integrator: when the read a command makes matches nothing, Genotypes.read (VCF/BCF) leaves an array of
+# shape (0, 0, 0) and GenotypesPLINK.read one of shape (n, 0, 3).  `haptools simphenotype` computes with the rows of that
+# array: for the VCF it writes a phenotype table without any sample, for the PGEN twin n noise-only phenotypes
+# (e.g. a .snplist none of whose IDs lie in --region).  False (default) = the tree as it is: cmdfmt does not hold a run
+# whose two loads left arrays of different shapes against the command.  True = after fixes/C08_simphenotype_empty_load.patch:
+# the outputs must be equal there too.  Flipping it on the unrepaired tree yields
+#   VIOLATION property=C08 ...  signature "cmdfmt[simphenotype]: outputs differ; ... loads-differ-in-shape=True"
+# Also settable with HV_C08_STRICT_CMD_EMPTY_LOAD=1.
+STRICT_CMD_EMPTY_LOAD = os.environ.get("HV_C08_STRICT_CMD_EMPTY_LOAD", "1") == "1"
+
 # ----------------------------------------------------------------------------
 # content and queries
 
+# contig names that are legal in VCF and PVAR files and contain the characters region texts are cut at
+SPECIAL_CONTIGS = ["HLA-DRB1", "HLA-A*01:01:01:01", "HLA-B*07:02:01", "chrUn_KI270-1", "chrUn_KI270", "6:7", "6", "1-2",
+                   "1", "GL000-1.1", "X:Y", "b-", "a:1", "c+5-+6", "d_1-1_0", ":e", "-f", "chr1_KI270706v1_random", "2:3-4"]
+SPECIAL_ABSENT = ["HLA-C", "chrUn_KI270-2", "6:8", "9-9", "zz:1-2", "HLA-A*01:01:01:02"]
+NAME_ALPHABET = "0123456789ABCXYabcxyz" + "-:-:_.*+"
 
-def gen_content(rng, pmax=8, nmax=5, allow_unsorted=True):
+
+def rand_contig(rng):
+    if rng.random() < 0.7:
+        return str(rng.choice(SPECIAL_CONTIGS))
+    k = int(rng.integers(1, 7))
+    s = "".join(NAME_ALPHABET[int(i)] for i in rng.integers(0, len(NAME_ALPHABET), size=k))
+    return ("c" + s[1:]) if s[0] == "*" else s
+
+
+def enc_name(name):
+    """C08_Region.enc: a contig name as one integer (little-endian base 256 with a final 1)"""
+    out = 1
+    for ch in reversed(name):
+        assert 0 <= ord(ch) < 256
+        out = ord(ch) + 256 * out
+    return out
+
+
+def _is_int(t):
+    try:
+        int(t)
+        return True
+    except ValueError:
+        return False
+
+
+def unambiguous(contigs, r):
+    """C08_Region.unambiguousb: the file holds no contig named like the other reading of the printed region"""
+    ctg, a, b = r
+    if a is None:
+        return ":" not in ctg or ctg.rpartition(":")[0] not in contigs
+    return region_str(r) not in contigs
+
+
+def has_sep(name):
+    return ":" in name or "-" in name
+
+
+def gen_content(rng, pmax=8, nmax=5, allow_unsorted=True, special=0.0, dup_ids=0.0):
     n = int(rng.integers(1, nmax + 1))
     p = int(rng.integers(1, pmax + 1))
     if rng.random() < 0.04:
@@ -111,6 +228,13 @@ def gen_content(rng, pmax=8, nmax=5, allow_unsorted=True):
     contigs = [("chr" if rng.random() < 0.2 else "") + str(c) for c in contigs]
     if len(set(contigs)) < len(contigs):
         contigs = sorted(set(contigs))
+    if rng.random() < special:
+        # names with ':' and '-' (and other legal punctuation) beside or instead of the plain ones, in any order
+        k = int(rng.integers(1, 4))
+        contigs = list(dict.fromkeys([rand_contig(rng) for _ in range(k)] + contigs[: int(rng.integers(0, 2))]))
+        # haptools keeps 10 characters of a contig name: two contigs of one file differ within them (ASSUMPTIONS)
+        contigs = list({x[:10]: x for x in contigs}.values())
+        contigs = [contigs[i] for i in rng.permutation(len(contigs)).tolist()]
     cidx = sorted(rng.integers(0, len(contigs), size=p).tolist())
     ids = [f"v{j}" for j in rng.permutation(20)[:p].tolist()]
     multibase = rng.random() < 0.3
@@ -159,6 +283,10 @@ def gen_content(rng, pmax=8, nmax=5, allow_unsorted=True):
             order = [j for i in rng.permutation(len(runs)).tolist() for j in runs[i]]
         variants = [variants[j] for j in order]
         rows = [rows[j] for j in order]
+    if p > 1 and rng.random() < dup_ids:
+        # outside the property's domain (ASSUMPTIONS): an ID twice in the file; compared with the model only
+        i, j = sorted(rng.choice(p, size=2, replace=False).tolist())
+        variants[j] = [variants[i][0]] + variants[j][1:]
     c = {"samples": samples, "variants": variants, "rows": rows, "planes": 3}
     # tabix/csi need contiguous contigs and non-decreasing positions; a sorted file is left un-indexed now and then
     c["indexed"] = bool(indexable(c) and rng.random() < 0.88)
@@ -189,8 +317,13 @@ def vcf_has_index(c, q):
     return is_indexed(c) and q.get("vfmt", "vcf.gz") != "vcf"
 
 
+def vcf_forced(c, q):
+    """the file has no index and the region is handed to the VCF reader all the same (htslib refuses)"""
+    return bool(q.get("vcf_force_region")) and not vcf_has_index(c, q) and q["region"] is not None
+
+
 def vcf_query(c, q):
-    return q if vcf_has_index(c, q) else dict(q, region=None)
+    return q if vcf_has_index(c, q) or vcf_forced(c, q) else dict(q, region=None)
 
 
 def noncontiguous(c, r):
@@ -205,12 +338,15 @@ def noncontiguous(c, r):
     return not all(hit[first:last + 1])
 
 
-def gen_query(rng, c):
+def gen_query(rng, c, special=False):
     p = len(c["variants"])
     q = {"region": None, "samples": None, "ids": None, "max": None, "chunk": None}
     if rng.random() < 0.6:
         contigs = sorted({v[1] for v in c["variants"]})
-        ctg = str(rng.choice(contigs)) if contigs and rng.random() < 0.88 else str(rng.choice(["4", "chr9", "1x"]))
+        absent = ["4", "chr9", "1x"] + (SPECIAL_ABSENT if special and any(has_sep(x) for x in contigs) else [])
+        ctg = str(rng.choice(contigs)) if contigs and rng.random() < 0.88 else str(rng.choice(absent))
+        if ctg not in contigs and ctg[:10] in {x[:10] for x in contigs}:
+            ctg = "4"      # an absent contig that a loaded object could not tell from one of the file
         pos = [v[2] for v in c["variants"] if v[1] == ctg] or [5]
         pts = sorted({max(1, x + d) for x in pos for d in (-1, 0, 1)} | {1, max(pos) + 7})
         form = rng.choice(["c", "c:a-b", "c:a-b", "c:a-"])
@@ -219,6 +355,10 @@ def gen_query(rng, c):
         if form == "c:a-b" and b < a and rng.random() < 0.85:
             a, b = b, a
         q["region"] = {"c": [ctg, None, None], "c:a-b": [ctg, a, b], "c:a-": [ctg, a, None]}[form]
+        if not unambiguous(contigs, q["region"]):
+            # the text has two readings that both name contigs of the file (ASSUMPTIONS): ask for the whole contig
+            # with a start instead, or for nothing
+            q["region"] = [ctg, 1, None] if unambiguous(contigs, [ctg, 1, None]) else None
     if rng.random() < 0.5:
         r = rng.random()
         k = int(rng.integers(1, len(c["samples"]) + 1))
@@ -240,7 +380,7 @@ def gen_query(rng, c):
             s = ["nope"]
         elif r < 0.48:
             s = []
-        q["ids"] = s
+        q["ids"] = list(dict.fromkeys(s))     # a set (a file may hold an ID twice: dup_ids)
     if rng.random() < 0.4:
         q["max"] = int(rng.integers(0, p + 3))
     if rng.random() < 0.7:
@@ -248,6 +388,8 @@ def gen_query(rng, c):
     q["vfmt"] = "bcf" if rng.random() < 0.3 else "vcf.gz"     # .bcf + .csi or .vcf.gz + .tbi
     if not is_indexed(c) and rng.random() < 0.3:
         q["vfmt"] = "vcf"                                      # plain text (only without an index)
+    if special and q["region"] is not None and not vcf_has_index(c, q) and rng.random() < 0.15:
+        q["vcf_force_region"] = True                           # the region is given although there is no index
     return q
 
 
@@ -369,6 +511,10 @@ def selects(c, q):
         out.append("region=" + ("c" if a is None else "c:a-b" if b is not None else "c:a-"))
         if ctg not in {v[1] for v in vs}:
             out.append("absent-contig")
+        if ":" in ctg:
+            out.append("region-contig-has-colon")
+        if "-" in ctg:
+            out.append("region-contig-has-dash")
         pos = [v[2] for v in vs if v[1] == ctg]
         for nm, x in (("a", a), ("b", b)):
             if x is not None and pos:
@@ -394,7 +540,18 @@ def selects(c, q):
     out.append("file-order=" + ("sorted" if indexable(c) else "multi-block-contig" if len({v[1] for v in vs}) <
                                  sum(1 for j, v in enumerate(vs) if not j or vs[j - 1][1] != v[1]) else "unsorted-positions"))
     if not vcf_has_index(c, q):
-        out.append("vcf-unindexed")
+        out.append("vcf-unindexed-region-given" if vcf_forced(c, q) else "vcf-unindexed")
+    if any(has_sep(v[1]) for v in vs):
+        out.append("file-contig-has-colon-or-dash")
+    if len({v[0] for v in vs}) < len(vs):
+        out.append("dup-id-in-file")
+    n = len(c["samples"])
+    if n >= 127 or len(vs) >= 127:
+        out.append("wide: n=%d p=%d" % (n, len(vs)))
+    if any(v[2] >= 2 ** 31 - 4 for v in vs):
+        out.append("pos-near-2^31")
+    if q["max"] is not None and q["max"] >= 255:
+        out.append("max>=255")
     if noncontiguous(c, q["region"]):
         out.append("region-matches-not-contiguous")
     if not vs:
@@ -404,6 +561,75 @@ def selects(c, q):
     restricts = len(keep) < len(vs) or (q["samples"] is not None and set(c["samples"]) - set(q["samples"])) \
         or (q["max"] is not None and q["max"] < len(keep))
     return out, bool(restricts)
+
+
+class ChromEnc:
+    """Interner whose ('chrom', name) keys become C08_Region.enc numbers (everything else as coqlit.Interner)"""
+
+    def __init__(self, inner):
+        self.inner = inner
+
+    def __call__(self, key):
+        if isinstance(key, tuple) and key and key[0] == "chrom":
+            return enc_name(key[1])
+        return self.inner(key)
+
+
+def read_boundary_cases(rng, tier):
+    """The width-boundary stream of the read relation, present in every run whatever the seed: numbers of samples on
+    both sides of 127|128, 255|256 (np.uint8 / np.int8 widths) and 1000|1001 (numpy's print summarisation), numbers of
+    variants around the chunk size and 255|256, max_variants beside and far beyond the number of matches (the
+    preallocation np.empty((max_variants, ...))), positions next to 2^31 - 1 with region bounds on, beside and beyond
+    them (BCF + csi: a .tbi ends at 2^29)."""
+    from .c07 import rand_calls
+
+    out = []
+    thorough = tier == "thorough"
+    mode = lambda: str(rng.choice(["phased", "mixed"]))
+
+    def fix_het(rows):
+        # PGEN stores an unphased heterozygote unordered
+        return [[[min(a, b), max(a, b), ph] if (a != b and not ph and a != 255 and b != 255) else [a, b, ph] for a, b, ph in r]
+                for r in rows]
+
+    def content(n, p, contig="1", pos0=10, step=5):
+        vs = [[f"v{j}", contig, pos0 + step * j, ["A", "C"]] for j in range(p)]
+        rows = fix_het([rand_calls(rng, n, 2, mode(), runs=n > 40) for _ in range(p)])
+        return {"samples": [f"s{j}" for j in range(n)], "variants": vs, "rows": rows, "planes": 3, "indexed": True}
+
+    base_q = {"region": None, "samples": None, "ids": None, "max": None, "chunk": None, "vfmt": "vcf.gz"}
+    # many samples: a block of samples that crosses the boundary is selected, a region cuts the variants
+    # (an index stored in 8 bits wraps from n = 129 resp. 257 on: one such size in every run)
+    ns = [127, 128, 129, 255, 256, 257, 300] if thorough else [int(rng.choice([127, 128, 255, 256])), int(rng.choice([129, 257, 300]))]
+    for n in ns:
+        c = content(n, 3)
+        lo = int(rng.integers(0, 3))
+        sel = [f"s{j}" for j in range(lo, n - int(rng.integers(0, 2)))]
+        out.append({"content": c, "q": dict(base_q, samples=sel, region=["1", 15, None], chunk=int(rng.integers(1, 4)),
+                                            vfmt=str(rng.choice(["vcf.gz", "bcf"])))})
+    for n in ([1000, 1001] if thorough else [int(rng.choice([1000, 1001]))]):
+        c = content(n, 2)
+        out.append({"content": c, "q": dict(base_q, samples=[f"s{j}" for j in range(1, n)], ids=["v1"])})
+    # many variants: chunk sizes beside the number of matches, max_variants beside and beyond it
+    ps = [255, 256, 257] if thorough else [257, int(rng.choice([255, 256]))]     # index 256 needs p >= 257
+    for p in ps:
+        c = content(2, p, step=3)
+        k = int(rng.choice([p - 1, p, p + 1, 128, 255, 256]))
+        out.append({"content": c, "q": dict(base_q, chunk=k, max=int(rng.choice([p - 1, p, p + 1, 255, 256])))})
+        out.append({"content": c, "q": dict(base_q, chunk=int(rng.choice([127, 128])), region=["1", 10 + 3 * 2, 10 + 3 * (p - 2)])})
+    c = content(2, 5)
+    for mx in ([255, 256, 65535, 65536, 2 ** 20] if thorough else [int(rng.choice([255, 256, 65535, 65536]))]):
+        out.append({"content": c, "q": dict(base_q, max=mx, region=["1", 15, None], chunk=2)})
+    for ch in ([4, 5, 6] if thorough else [int(rng.choice([4, 5, 6]))]):
+        out.append({"content": c, "q": dict(base_q, chunk=ch)})
+    # positions next to 2^31 - 1 (pgenlib's PvarReader refuses 2^31 - 1 itself)
+    top = 2 ** 31 - 2
+    c = content(2, 3)
+    c["variants"][1][2], c["variants"][2][2] = top - 1, top
+    bounds = [(top - 1, top), (top, None), (top, top + 1), (top, 2 ** 31), (6, 2 ** 32), (top + 1, None), (top + 1, 2 ** 31)]
+    for a, b in (bounds if thorough else [bounds[int(i)] for i in rng.choice(len(bounds), size=2, replace=False)]):
+        out.append({"content": c, "q": dict(base_q, region=["1", a, b], vfmt="bcf")})
+    return out
 
 
 class Read(Relation):
@@ -430,10 +656,11 @@ class Read(Relation):
     ]
 
     def generate(self, rng, n, tier):
-        out = []
+        out = read_boundary_cases(rng, tier)
         for i in range(n):
-            c = gen_content(rng)
-            out.append({"content": c, "q": gen_query(rng, c)})
+            sp = rng.random() < 0.3
+            c = gen_content(rng, special=1.0 if sp else 0.0, dup_ids=0.03)
+            out.append({"content": c, "q": gen_query(rng, c, special=True)})
         return out
 
     def exhaustive(self, tier):
@@ -455,6 +682,20 @@ class Read(Relation):
                 for mx in (None, 0, 1):
                     for ch in (None, 1):
                         out.append({"content": c, "q": {"region": r, "samples": None, "ids": ids, "max": mx, "chunk": ch}})
+        # contig names with ':' and '-': every name x every form, the contig present / absent, beside a plain contig
+        for name in SPECIAL_CONTIGS:
+            for other in ("1", "chrUn_KI270", "6"):
+                if other == name:
+                    continue
+                cs = {"samples": ["a", "b"], "planes": 3, "indexed": True,
+                      "variants": [["v1", other, 3, ["A", "T"]], ["v2", name, 5, ["C", "T"]], ["v3", name, 9, ["G", "T"]]],
+                      "rows": [[[0, 1, 1], [1, 1, 1]], [[1, 0, 1], [0, 0, 1]], [[1, 1, 1], [0, 1, 0]]]}
+                ctgs = [other, name]
+                for r in ([name, None, None], [name, 5, 5], [name, 6, None], [name, 1, 20], [other, None, None],
+                          [other, 2, None], [name + "x", None, None], [name + "x", 1, 9]):
+                    if unambiguous(ctgs, r) and (r[0] in ctgs or r[0][:10] not in {x[:10] for x in ctgs}):
+                        out.append({"content": cs, "q": {"region": r, "samples": None, "ids": None, "max": None, "chunk": None,
+                                                         "vfmt": "bcf" if len(name) % 2 else "vcf.gz"}})
         # the same records in every file order of a 4-record file (un-indexed VCF; the PVAR need not be sorted)
         import itertools
         for perm in itertools.permutations(range(4)):
@@ -480,27 +721,33 @@ class Read(Relation):
 
     def encode(self, inp, obs):
         E = Enc()
+        E.i = ChromEnc(E.i)      # contig names as C08_Region.enc numbers: the model parses the region text itself
         c, q = inp["content"], inp["q"]
         g = E.geno_in(c)
         ids = lambda l: L.lst(l, lambda x: L.z(E.i(("id", x))))
-        reg = "None"
+        reg, regstr = "None", "None"
         if q["region"] is not None:
             ctg, a, b = q["region"]
             reg = f"(Some ({L.z(E.i(('chrom', ctg)))}, {L.opt(a, L.z)}, {L.opt(b, L.z)}))"
-        qt = (f"(mkq {reg} {L.opt(q['samples'], lambda l: L.lst(l, E.s))} {L.opt(q['ids'], ids)} "
+            regstr = f"(Some {L.chars(region_str(q['region']))})"
+        sam = lambda l: E.samples(l)
+        qt = (f"(mkq {reg} {L.opt(q['samples'], sam)} {L.opt(q['ids'], ids)} "
               f"{L.opt(q['max'], L.z)})")
 
         def fobs(o):
             if o is None:
                 e = f"(Err {oerr(obs)})"
                 return f"(mkfo {e} {e} false {e})"
-            rec = lambda r: f"({E.variant(r[0])}, {L.lst(r[1], E.call)})"
-            it = L.res(o["iter"], lambda x: f"({L.lst(x['samples'], E.s)}, {L.lst(x['recs'], rec)})")
+            from .c07 import seq_compact
+            rec = lambda r: f"({E.variant(r[0])}, {seq_compact([E.call(x) for x in r[1]])})"
+            it = L.res(o["iter"], lambda x: f"({E.samples(x['samples'])}, {L.lst(x['recs'], rec)})")
             return f"(mkfo {E.rgeno(o['full'])} {E.rgeno(o['read'])} {L.b(o['warned'])} {it})"
 
         ok = isinstance(obs, dict) and "vcf" in obs
+        forced = vcf_forced(c, q)
         return (f"(mkrc {g} {qt} {L.opt(q['chunk'], L.z)} {L.b(STRICT_EMPTY_SAMPLE_SELECTION)} "
-                f"{L.b(not vcf_has_index(c, q))} {fobs(obs['vcf'] if ok else None)} {fobs(obs['pgen'] if ok else None)})")
+                f"{L.b(not vcf_has_index(c, q) and not forced)} {regstr} {L.b(STRICT_REGION_CONTIG_NAMES)} {L.b(forced)} "
+                f"{fobs(obs['vcf'] if ok else None)} {fobs(obs['pgen'] if ok else None)})")
 
     def nontrivial(self, inp, obs):
         return selects(inp["content"], inp["q"])[1]
@@ -548,6 +795,17 @@ class Read(Relation):
                     yield {"content": c, "q": dict(q, region=[ctg, 1, max(1, a + d)])}
         for m in (0, 1, len(c["variants"])):
             yield {"content": c, "q": dict(q, max=m, ids=None)}
+        # the same content under contig names with ':' / '-'
+        names = sorted({v[1] for v in c["variants"]})
+        for _ in range(4):
+            ren = {x: rand_contig(rng) for x in names}
+            if len({y[:10] for y in ren.values()}) < len(names):
+                continue
+            cr = dict(c, variants=[[v[0], ren[v[1]], v[2], v[3]] for v in c["variants"]])
+            for x in names:
+                for r in ([ren[x], None, None], [ren[x], 1, None]):
+                    if unambiguous(list(ren.values()), r):
+                        yield {"content": cr, "q": dict(q, region=r)}
         p = len(c["variants"])
         for _ in range(6):          # other file orders of the same records
             perm = rng.permutation(p).tolist()
@@ -568,7 +826,9 @@ class Read(Relation):
                     parts.append(f"{fmt} {k} raised {o[k].get('cls')}")
         what = "; ".join(parts) if parts else "restricted read / iterator / other format differs from full read + subset"
         nosamp = inp["q"]["samples"] is not None and not (set(inp["q"]["samples"]) & set(inp["content"]["samples"]))
-        return f"read: {what}; empty-match={empty} no-sample-selected={nosamp}"
+        sep = inp["q"]["region"] is not None and has_sep(inp["q"]["region"][0])
+        return (f"read: {what}; empty-match={empty} no-sample-selected={nosamp}"
+                + (" region-contig-has-colon-or-dash=True" if sep else ""))
 
 
 # ----------------------------------------------------------------------------
@@ -588,9 +848,23 @@ class Subset(Relation):
     ]
 
     def generate(self, rng, n, tier):
-        from .c07 import gen_matrix
+        from .c07 import gen_matrix, rand_calls
 
         out = []
+        # width boundaries, in every run: names whose positions lie on both sides of 127|128 and 255|256
+        widths = [129, 257, 300] if tier == "thorough" else [129, 257]     # an 8-bit index wraps at 128 resp. 256
+        for w in widths:
+            pick = [w - 1, 0, w - 2, 128, 127] + ([256, 255] if w > 256 else [])
+            vs = [[f"v{j}", "1", 10 + 3 * j, ["A", "C"]] for j in range(2)]
+            out.append({"samples": [f"s{j}" for j in range(w)], "variants": vs, "planes": 3,
+                        "rows": [rand_calls(rng, w, 2, "mixed", runs=True) for _ in vs],
+                        "S": [f"s{j}" for j in pick], "V": None if rng.random() < 0.5 else ["v1", "v0"],
+                        "inplace": bool(rng.random() < 0.5), "kind": "wellformed"})
+            vs = [[f"v{j}", "1", 10 + 3 * j, ["A", "C"]] for j in range(w)]
+            out.append({"samples": ["s0", "s1"], "variants": vs, "planes": 3,
+                        "rows": [rand_calls(rng, 2, 2, "mixed") for _ in vs],
+                        "S": None if rng.random() < 0.5 else ["s1", "s0"], "V": [f"v{j}" for j in pick],
+                        "inplace": bool(rng.random() < 0.5), "kind": "wellformed"})
         for i in range(n):
             m = gen_matrix(rng, half_ok=True, pmax=6, nmax=5)
             m["planes"] = int(rng.choice([2, 3, 3]))
@@ -649,6 +923,8 @@ class Subset(Relation):
 
     def classes(self, inp, obs):
         out = [inp["kind"], "inplace" if inp["inplace"] else "copy"]
+        if len(inp["samples"]) >= 127 or len(inp["variants"]) >= 127:
+            out.append("wide: n=%d p=%d" % (len(inp["samples"]), len(inp["variants"])))
         for key, names in (("S", inp["samples"]), ("V", [v[0] for v in inp["variants"]])):
             r = inp[key]
             if r is None:
@@ -1018,7 +1294,420 @@ class Seq(Relation):
                 f"subset-on-array-without-cells={bool(hollow_hit)}")
 
 
-RELATIONS = [Read(), Subset(), Seq()]
+# ----------------------------------------------------------------------------
+# one command, the same content once as VCF and once as PGEN
+
+
+def gen_cmd_content(rng, special=False):
+    """SNP-like contents every command accepts: 3-8 samples x 3-8 variants on 1-2 contigs, every non-missing call phased
+    (pgenlib reports a homozygous call as phased, so the VCF twin spells it 0|0), now and then a missing call, an
+    unphased heterozygote or a third allele (the commands refuse them - in both formats alike)"""
+    n, p = int(rng.integers(3, 9)), int(rng.integers(3, 9))
+    samples = [f"s{j}" for j in rng.permutation(12)[:n].tolist()]
+    contigs = [str(x) for x in sorted(rng.choice([1, 2, 7, 10], size=int(rng.integers(1, 3)), replace=False).tolist())]
+    if rng.random() < 0.2:
+        contigs = ["chr" + x for x in contigs]
+    if special:
+        contigs = list({x[:10]: x for x in [rand_contig(rng) for _ in range(len(contigs))]}.values())
+    cidx = sorted(rng.integers(0, len(contigs), size=p).tolist())
+    ids = [f"v{j}" for j in rng.permutation(30)[:p].tolist()]
+    flaw = rng.choice(["none"] * 9 + ["missing", "missing", "unphased-het", "multiallelic"])
+    variants, rows, pos = [], [], 0
+    for j in range(p):
+        if j and cidx[j] != cidx[j - 1]:
+            pos = 0
+        pos += int(rng.integers(1, 30))
+        ref, alt = [str(x) for x in rng.choice(list("ACGT"), size=2, replace=False)]
+        alleles = [ref, alt]
+        if flaw == "multiallelic" and rng.random() < 0.4:
+            alleles.append(next(x for x in "ACGT" if x not in alleles))
+        row = []
+        for k in range(n):
+            a, b = int(rng.integers(0, len(alleles))), int(rng.integers(0, len(alleles)))
+            ph = 1
+            if flaw == "missing" and rng.random() < 0.12:
+                a, b, ph = 255, 255, 0
+            elif flaw == "unphased-het" and a != b and rng.random() < 0.3:
+                a, b, ph = min(a, b), max(a, b), 0
+            row.append([a, b, ph])
+        variants.append([ids[j], contigs[cidx[j]], pos, alleles])
+        rows.append(row)
+    return {"samples": samples, "variants": variants, "rows": rows, "planes": 3, "indexed": True, "flaw": str(flaw)}
+
+
+def gen_haps(rng, c):
+    """1-4 haplotypes, each over 1-3 variants of one contig with one of their alleles"""
+    by = {}
+    for v in c["variants"]:
+        by.setdefault(v[1], []).append(v)
+    haps = []
+    for h in range(int(rng.integers(1, 5))):
+        ctg = str(rng.choice(sorted(by)))
+        vs = by[ctg]
+        pick = sorted(rng.choice(len(vs), size=min(len(vs), int(rng.integers(1, 4))), replace=False).tolist())
+        hv = [[vs[i][0], vs[i][2], str(rng.choice(vs[i][3]))] for i in pick]
+        haps.append({"id": f"H{h + 1}", "chrom": ctg, "start": min(x[1] for x in hv), "end": max(x[1] for x in hv) + 1,
+                     "beta": round(float(rng.uniform(-1, 1)), 2), "vars": hv})
+    return haps
+
+
+def hap_text(haps):
+    out = ["#\torderH\tbeta", "#\tversion\t0.2.0", "#H\tbeta\t.2f\tEffect size in linear model"]
+    for h in haps:
+        out.append(f"H\t{h['chrom']}\t{h['start']}\t{h['end']}\t{h['id']}\t{h['beta']:.2f}")
+    for h in haps:
+        for vid, pos, al in h["vars"]:
+            out.append(f"V\t{h['id']}\t{pos}\t{pos + 1}\t{vid}\t{al}")
+    return "\n".join(out) + "\n"
+
+
+CMDS = ["transform", "ld", "ld-from-gts", "simphenotype", "clump"]
+
+
+def gen_cmd_case(rng, cmd=None, special=False):
+    c = gen_cmd_content(rng, special=special)
+    cmd = cmd or str(rng.choice(CMDS))
+    haps = gen_haps(rng, c)
+    contigs = sorted({v[1] for v in c["variants"]})
+    region = None
+    if cmd != "clump" and rng.random() < 0.6:
+        ctg = str(rng.choice(contigs))
+        pos = [v[2] for v in c["variants"] if v[1] == ctg]
+        a, b = sorted(int(x) for x in rng.choice(sorted({max(1, x + d) for x in pos for d in (-1, 0, 1)}), size=2))
+        region = [[ctg, None, None], [ctg, a, b], [ctg, a, None]][int(rng.integers(0, 3))]
+        if not unambiguous(contigs, region):
+            region = None
+    samples = None
+    if cmd != "clump" and rng.random() < 0.5:
+        k = int(rng.integers(2, len(c["samples"]) + 1))
+        samples = [c["samples"][i] for i in rng.permutation(len(c["samples"]))[:k].tolist()]
+        if rng.random() < 0.3:
+            samples.append("zz")
+    opts = {"chunk": None if rng.random() < 0.4 else int(rng.integers(1, len(c["variants"]) + 2)),
+            "discard_missing": bool(rng.random() < 0.5), "ids": None, "target": None, "seed": int(rng.integers(0, 100)),
+            "replications": int(rng.integers(1, 3)), "maf": None}
+    vids = [v[0] for v in c["variants"]]
+    if cmd == "transform":
+        if rng.random() < 0.3:
+            opts["ids"] = [h["id"] for h in haps if rng.random() < 0.7] or [haps[0]["id"]]
+        if rng.random() < 0.2:
+            opts["maf"] = float(rng.choice([0.1, 0.25]))
+    elif cmd == "ld":
+        opts["target"] = str(rng.choice([h["id"] for h in haps] + vids[:1]))
+    elif cmd == "ld-from-gts":
+        opts["target"] = str(rng.choice(vids + [haps[0]["id"]]))
+        if rng.random() < 0.4:
+            opts["ids"] = [vids[i] for i in rng.permutation(len(vids))[: int(rng.integers(1, len(vids) + 1))].tolist()]
+    elif cmd == "simphenotype":
+        k = int(rng.integers(1, min(3, len(vids)) + 1))
+        opts["effects"] = [[vids[i], round(float(rng.uniform(-1, 1)), 2)] for i in rng.permutation(len(vids))[:k].tolist()]
+    elif cmd == "clump":
+        opts["pvals"] = [float(x) for x in rng.choice([1e-8, 1e-5, 2e-5, 0.001, 0.002, 0.03, 0.2], size=len(vids))]
+        opts["kb"] = float(rng.choice([0.01, 0.02, 250]))
+        opts["r2"] = float(rng.choice([0.1, 0.5, 0.9]))
+    return {"content": c, "cmd": cmd, "haps": haps, "region": region, "samples": samples, "opts": opts}
+
+
+def cmd_args(inp, gt, d, tag):
+    """the argument vector of the command (the same for both formats but for the genotypes path)"""
+    cmd, o = inp["cmd"], inp["opts"]
+    hap = os.path.join(d, "x.hap")
+    args, out = [], None
+    common = []
+    if inp["region"] is not None:
+        common += ["--region", region_str(inp["region"])]
+    for s in inp["samples"] or []:
+        common += ["-s", s]
+    if o["chunk"] is not None:
+        common += ["-c", str(o["chunk"])]
+    if cmd == "transform":
+        out = os.path.join(d, f"out_{tag}.vcf")
+        args = ["transform", gt, hap, "-o", out] + common
+        for i in o["ids"] or []:
+            args += ["-i", i]
+        if o["discard_missing"]:
+            args.append("--discard-missing")
+        if o["maf"] is not None:
+            args += ["--maf", str(o["maf"])]
+    elif cmd in ("ld", "ld-from-gts"):
+        out = os.path.join(d, f"out_{tag}." + ("ld" if cmd == "ld-from-gts" else "hap"))
+        args = ["ld", o["target"], gt, hap, "-o", out] + common
+        if cmd == "ld-from-gts":
+            args.append("--from-gts")
+        for i in o["ids"] or []:
+            args += ["-i", i]
+        if o["discard_missing"]:
+            args.append("--discard-missing")
+    elif cmd == "simphenotype":
+        out = os.path.join(d, f"out_{tag}.pheno")
+        args = ["simphenotype", gt, os.path.join(d, "x.snplist"), "-o", out, "--seed", str(o["seed"]),
+                "-r", str(o["replications"])] + common
+    elif cmd == "clump":
+        out = os.path.join(d, f"out_{tag}.clump")
+        args = ["clump", "--summstats-snps", os.path.join(d, "ss.txt"), "--gts-snps", gt, "--clump-id-field", "SNP",
+                "--clump-chrom-field", "CHR", "--clump-pos-field", "POS", "--clump-p1", "0.01", "--clump-p2", "0.05",
+                "--clump-kb", str(o["kb"]), "--clump-r2", str(o["r2"]), "--out", out]
+    return args + ["-v", "CRITICAL"] if cmd != "clump" else args + ["--verbosity", "CRITICAL"], out
+
+
+def parse_output(path):
+    """the records of an output file: tab-separated tokens, stripped; in a VCF body the separator of a homozygous
+    GT is immaterial"""
+    if path is None or not os.path.exists(path):
+        return None
+    rows = []
+    with open(path) as f:
+        lines = f.read().split("\n")
+    body = False
+    for ln in lines:
+        toks = [t.strip() for t in ln.split("\t")]
+        if body and path.endswith(".vcf") and len(toks) > 9:
+            for i in range(9, len(toks)):
+                t = toks[i].replace("/", "|")
+                a = t.split("|")
+                toks[i] = t if len(a) == 2 and a[0] == a[1] else toks[i]
+        if ln.startswith("#CHROM"):
+            body = True
+        rows.append(toks)
+    while rows and rows[-1] == [""]:
+        rows.pop()
+    return rows
+
+
+class ReadRecorder:
+    """wraps Genotypes.read / GenotypesPLINK.read: the arguments of the first read of the genotypes file and the object
+    it left"""
+
+    def __init__(self, path):
+        self.path, self.seen = str(path), None
+        self.saved = []
+
+    def __enter__(self):
+        from haptools.data import genotypes as G
+
+        rec = self
+        for cls in (G.Genotypes, G.GenotypesPLINK):
+            orig = cls.__dict__["read"]
+            self.saved.append((cls, orig))
+
+            def wrapped(obj, region=None, samples=None, variants=None, max_variants=None, _orig=orig):
+                mine = rec.seen is None and str(obj.fname) == rec.path and type(obj).__name__ in (
+                    "Genotypes", "GenotypesVCF", "GenotypesPLINK")
+                if mine:
+                    rec.seen = {"region": region, "samples": None if samples is None else sorted(samples),
+                                "ids": None if variants is None else sorted(variants), "max": max_variants,
+                                "chunk": getattr(obj, "chunk_size", None), "cls": type(obj).__name__, "load": None}
+                try:
+                    r = _orig(obj, region=region, samples=samples, variants=variants, max_variants=max_variants)
+                except Exception as e:  # noqa
+                    if mine:
+                        rec.seen["load"] = {"err": err_kind(e), "cls": type(e).__name__, "msg": str(e)[:160]}
+                    raise
+                if mine:
+                    rec.seen["load"] = {"ok": dump_obj(obj)}
+                return r
+
+            cls.read = wrapped
+        return self
+
+    def __exit__(self, *a):
+        for cls, orig in self.saved:
+            cls.read = orig
+
+
+class CmdFmt(Relation):
+    name = "cmdfmt"
+    coq_module = "C08_Check"
+    coq_check = "check_cmdfmt"
+    coq_case_type = "ccase"
+    coq_model = "model_cmdfmt"
+    coq_imports = ["C07_Model", "C08_Model"]
+    budget = {"quick": 48, "thorough": 1500}
+    max_cases_per_shard = 120
+    anchors = [
+        ("haptools/transform.py", "transform_haps"),
+        ("haptools/ld.py", "calc_ld"),
+        ("haptools/sim_phenotype.py", "simulate_pt"),
+        ("haptools/clump.py", "clumpstr"),
+        ("haptools/data/genotypes.py", "Genotypes.load"),
+        ("haptools/data/genotypes.py", "Genotypes.read"),
+        ("haptools/data/genotypes.py", "GenotypesPLINK.read"),
+        ("haptools/data/genotypes.py", "GenotypesPLINK._iterate_variants"),
+    ]
+
+    def generate(self, rng, n, tier):
+        out = []
+        for i in range(n):
+            out.append(gen_cmd_case(rng, cmd=CMDS[i % len(CMDS)], special=bool(rng.random() < 0.15)))
+        return out
+
+    def run_impl(self, inp):
+        from click.testing import CliRunner
+        from haptools.__main__ import main
+
+        d = tempfile.mkdtemp(prefix="hv_c08c_")
+        try:
+            c, o = inp["content"], inp["opts"]
+            vp, pp = os.path.join(d, "x.vcf.gz"), os.path.join(d, "x.pgen")
+            write_vcf(c, vp)
+            write_pgen(c, pp)
+            with open(os.path.join(d, "x.hap"), "w") as f:
+                f.write(hap_text(inp["haps"]))
+            if inp["cmd"] == "simphenotype":
+                with open(os.path.join(d, "x.snplist"), "w") as f:
+                    f.write("".join(f"{i}\t{b}\n" for i, b in o["effects"]))
+            if inp["cmd"] == "clump":
+                with open(os.path.join(d, "ss.txt"), "w") as f:
+                    f.write("CHR\tPOS\tSNP\tP\n")
+                    for v, pv in zip(c["variants"], o["pvals"]):
+                        f.write(f"{v[1]}\t{v[2]}\t{v[0]}\t{pv!r}\n")
+            res = {}
+            for tag, gt in (("v", vp), ("p", pp)):
+                args, out = cmd_args(inp, gt, d, tag)
+                with ReadRecorder(gt) as rec:
+                    r = CliRunner().invoke(main, args, catch_exceptions=True)
+                exc = r.exception
+                res[tag] = {"exit": int(r.exit_code),
+                            "exc": None if exc is None or isinstance(exc, SystemExit) else
+                            {"err": err_kind(exc), "cls": type(exc).__name__, "msg": str(exc)[:160]},
+                            "out": parse_output(out) if r.exit_code == 0 else None, "read": rec.seen}
+            return res
+        finally:
+            shutil.rmtree(d, ignore_errors=True)
+
+    @staticmethod
+    def _query(inp, seen):
+        """the query the command handed to the reader (recorded), as the read relation writes it"""
+        return {"region": inp["region"], "samples": seen["samples"], "ids": seen["ids"], "max": seen["max"],
+                "chunk": seen["chunk"], "vfmt": "vcf.gz"}
+
+    def encode(self, inp, obs):
+        E = Enc()
+        E.i = ChromEnc(E.i)
+        T = L.Interner()          # the tokens of the outputs
+        c = inp["content"]
+        g = E.geno_in(c)
+        ids = lambda l: L.lst(l, lambda x: L.z(E.i(("id", x))))
+        ok = isinstance(obs, dict) and "v" in obs and "p" in obs
+        alle = {(v[0], v[1][:10], v[2]): v[3] for v in c["variants"]}
+
+        def cout(o):
+            if o is None:
+                return f"(mkco 97 {oerr(obs)} None)"
+            out = "None" if o["out"] is None else "(Some " + L.lst(o["out"], lambda r: L.zl([T(t) for t in r])) + ")"
+            return f"(mkco {L.z(o['exit'])} {L.z(0 if o['exc'] is None else o['exc']['err'])} {out})"
+
+        def load(o):
+            if o is None or o["read"] is None or o["read"]["load"] is None:
+                return "None"
+            ld = o["read"]["load"]
+            if "ok" in ld:
+                # the base class Genotypes (simphenotype on a VCF) does not load alleles: taken from the content
+                ld = {"ok": dict(ld["ok"], variants=[[v[0], v[1], v[2], v[3] or alle.get((v[0], v[1], v[2]), [])]
+                                                      for v in ld["ok"]["variants"]])}
+            return f"(Some {E.rgeno(ld)})"
+
+        seen_v = obs["v"]["read"] if ok else None
+        seen_p = obs["p"]["read"] if ok else None
+        seen = seen_v or seen_p
+        reg, regstr, sam, idl, mx, chunk = "None", "None", "None", "None", "None", "None"
+        same = True
+        if seen is not None:
+            same = seen_v is not None and seen_p is not None and all(
+                seen_v[k] == seen_p[k] for k in ("region", "samples", "ids", "max"))
+            same = same and seen["region"] == region_str(inp["region"])
+            sam, idl = L.opt(seen["samples"], lambda l: E.samples(l)), L.opt(seen["ids"], ids)
+            mx = L.opt(seen["max"], L.z)
+            chunk = L.opt(seen_p["chunk"] if seen_p else None, L.z)
+            if inp["region"] is not None:
+                ctg, a, b = inp["region"]
+                reg = f"(Some ({L.z(E.i(('chrom', ctg)))}, {L.opt(a, L.z)}, {L.opt(b, L.z)}))"
+                regstr = f"(Some {L.chars(region_str(inp['region']))})"
+        qt = f"(mkq {reg} {sam} {idl} {mx})"
+        return (f"(mkcc {g} {qt} {chunk} {regstr} {L.b(STRICT_REGION_CONTIG_NAMES)} {L.b(STRICT_EMPTY_SAMPLE_SELECTION)} "
+                f"{L.b(STRICT_CMD_EMPTY_LOAD)} {L.b(same)} {load(obs['v'] if ok else None)} {load(obs['p'] if ok else None)} "
+                f"{cout(obs['v'] if ok else None)} {cout(obs['p'] if ok else None)})")
+
+    def nontrivial(self, inp, obs):
+        # both runs produced an output with at least one record beyond the header
+        if not (isinstance(obs, dict) and "v" in obs):
+            return False
+        o = obs["v"]["out"]
+        return bool(o) and len([r for r in o if r and not r[0].startswith("#")]) > (1 if inp["cmd"] in ("clump", "ld-from-gts") else 0)
+
+    def classes(self, inp, obs):
+        out = [inp["cmd"], "flaw=" + inp["content"].get("flaw", "none")]
+        if inp["region"] is not None:
+            out.append("region=" + ("c" if inp["region"][1] is None else "c:a-b" if inp["region"][2] is not None else "c:a-"))
+            if has_sep(inp["region"][0]):
+                out.append("region-contig-has-colon-or-dash")
+        if inp["samples"] is not None:
+            out.append("samples")
+        if inp["opts"]["chunk"] is not None:
+            out.append("chunk")
+        if inp["opts"].get("ids"):
+            out.append("ids")
+        if isinstance(obs, dict) and "v" in obs:
+            for tag in ("v", "p"):
+                rd = obs[tag]["read"]
+                if rd and rd["load"] and "ok" in rd["load"] and 0 in rd["load"]["ok"]["shape"]:
+                    out.append(f"{tag}-load-empty")
+                out.append(f"{tag}-exit{obs[tag]['exit']}" + (f"-{obs[tag]['exc']['cls']}" if obs[tag]["exc"] else ""))
+        return out
+
+    def shrink(self, inp):
+        if inp["region"] is not None:
+            yield dict(inp, region=None)
+            if inp["region"][1] is not None:
+                yield dict(inp, region=[inp["region"][0], None, None])
+        if inp["samples"] is not None:
+            yield dict(inp, samples=None)
+        o = inp["opts"]
+        for key in ("chunk", "ids", "maf"):
+            if o.get(key) is not None:
+                yield dict(inp, opts=dict(o, **{key: None}))
+        if o.get("discard_missing"):
+            yield dict(inp, opts=dict(o, discard_missing=False))
+        if len(inp["haps"]) > 1:
+            for j in range(len(inp["haps"])):
+                if inp["haps"][j]["id"] != o.get("target"):
+                    yield dict(inp, haps=inp["haps"][:j] + inp["haps"][j + 1:])
+        c = inp["content"]
+        used = {x[0] for h in inp["haps"] for x in h["vars"]} | set(o.get("ids") or []) | {o.get("target")} \
+            | {e[0] for e in o.get("effects", [])}
+        if inp["cmd"] != "clump":
+            for j in range(len(c["variants"])):
+                if c["variants"][j][0] not in used and len(c["variants"]) > 1:
+                    yield dict(inp, content=dict(c, variants=c["variants"][:j] + c["variants"][j + 1:],
+                                                 rows=c["rows"][:j] + c["rows"][j + 1:]))
+        if len(c["samples"]) > 2:
+            for k in range(len(c["samples"])):
+                yield dict(inp, content=dict(c, samples=c["samples"][:k] + c["samples"][k + 1:],
+                                             rows=[r[:k] + r[k + 1:] for r in c["rows"]]))
+
+    def mutate(self, inp, rng):
+        for _ in range(30):
+            yield gen_cmd_case(rng, cmd=inp["cmd"], special=bool(rng.random() < 0.3))
+
+    def signature(self, inp, obs):
+        if not (isinstance(obs, dict) and "v" in obs):
+            return "cmdfmt: interpreter crash/timeout"
+        v, p = obs["v"], obs["p"]
+        what = []
+        for tag, o in (("VCF", v), ("PGEN", p)):
+            if o["exit"] != 0:
+                what.append(f"{tag} run failed ({o['exc']['cls'] if o['exc'] else 'exit %d' % o['exit']})")
+        if not what:
+            what.append("outputs differ" if v["out"] != p["out"] else "the readers loaded what the model does not predict")
+        sep = inp["region"] is not None and has_sep(inp["region"][0])
+        shp = [o["read"]["load"]["ok"]["shape"] if o["read"] and o["read"]["load"] and "ok" in o["read"]["load"] else None
+               for o in (v, p)]
+        return (f"cmdfmt[{inp['cmd']}]: {'; '.join(what)}; flaw={inp['content'].get('flaw', 'none')}"
+                + (" region-contig-has-colon-or-dash=True" if sep else "")
+                + (" loads-differ-in-shape=True" if None not in shp and shp[0] != shp[1] else ""))
+
+
+RELATIONS = [Read(), Subset(), Seq(), CmdFmt()]
 
 LEVEL_TEXT = (
     "Coq theorems, for every file content with unique IDs - in any record order, sorted or not - and every query (region, "
@@ -1027,23 +1716,36 @@ LEVEL_TEXT = (
     "file order and IS the model's subset() of the full read by the selected samples and IDs in file order "
     "(C08_read_eq_full_then_subset_vcf/_pgen), an empty match is an empty result and never an error, the iterator yields "
     "the records of the bulk read, max_variants returns a prefix, both formats are the same function of the content "
-    "(C08_vcf_pgen_same_content), subset returns the requested order, and any sequence of subset() calls equals one "
-    "subset() of the original object by the names the sequence leaves (C08_subset_seq_one; a repeated name makes the next "
-    "call raise, C08_subset_after_repeats). The model is tied to /repo on every run: each generated content is written as "
-    "VCF/BCF (indexed when its order allows) and as .pgen with pysam/pgenlib directly; haptools' full, restricted and "
-    "streaming reads of both files, read()+subset(), and sequences of in-place and copying subset() calls on the loaded "
-    "object are compared with the model and checked against the property inside Coq."
+    "(C08_vcf_pgen_same_content) and therefore every command that looks at nothing but what was loaded returns the same "
+    "result for either format (C08_command_same_result), subset returns the requested order, and any sequence of subset() "
+    "calls equals one subset() of the original object by the names the sequence leaves (C08_subset_seq_one; a repeated name "
+    "makes the next call raise, C08_subset_after_repeats). The region is modelled as the TEXT the readers get, at character "
+    "level (C08_Region): htslib's parser and the repaired GenotypesPLINK parser invert the canonical printing of "
+    "(contig, start?, end?) for EVERY contig name - ':' and '-' included - as long as the text has one reading in the file "
+    "(C08_region_string_vcf / _pgen, C08_vcf_read_by_string / C08_pgen_read_by_string), the parser of the tree as it is "
+    "only for names without ':' and '-' (C08_region_parse_legacy_plain; C08_legacy_region_refuted). The model is tied to "
+    "/repo on every run: each generated content is written as VCF/BCF (indexed when its order allows) and as .pgen with "
+    "pysam/pgenlib directly; haptools' full, restricted and streaming reads of both files, read()+subset(), sequences of "
+    "in-place and copying subset() calls on the loaded object, and runs of transform / ld / simphenotype / clump on both "
+    "files are compared with the model and checked against the property inside Coq."
 )
 LEVEL_NOTE = (
-    "Partial: htslib's region query and pgenlib's by-index reads are contracts exercised on every run, not theorems. "
-    "Cross-format equality is a theorem (C08_vcf_pgen_same_content: same samples, variants, allele indices, missing calls "
-    "and phase of heterozygous calls for every pgenlib meeting the C07 contract) under the hypothesis that the region has "
-    "no start or every REF allele is one base long (htslib selects by REF overlap, the PGEN reader by position); the run "
-    "compares region reads across formats under the same condition and only when the VCF has an index. Two defects of "
-    "/repo found by this check were repaired (a sample restriction that selects nobody raised inside pgenlib: fix 1b2885e; "
-    "subset() on the object of a VCF read that matched nothing raised IndexError: fix 09a826e); the model is the repaired "
-    "reader (switches STRICT_EMPTY_SAMPLE_SELECTION / STRICT_SUBSET_AFTER_EMPTY_READ on) and holds demands the empty result "
-    "with a warning there too (C08_vcf_read_x_spec / C08_pgen_read_x_spec state the repaired readers without the hypothesis "
-    "selected_samples <> [] that the theorems about the unrepaired readers carry)."
+    "Partial: htslib's region query and text parsing and pgenlib's by-index reads are contracts exercised on every run, not "
+    "theorems. Cross-format equality is a theorem (C08_vcf_pgen_same_content: same samples, variants, allele indices, "
+    "missing calls and phase of heterozygous calls for every pgenlib meeting the C07 contract) under the hypothesis that "
+    "the region has no start or every REF allele is one base long (htslib selects by REF overlap, the PGEN reader by "
+    "position); the run compares region reads across formats under the same condition and only when the VCF has an index. "
+    "'Every command gives the same result' is a theorem for commands that are functions of the loaded content "
+    "(C08_command_same_result); that haptools' commands are such functions is what the cmdfmt relation tests, it is not "
+    "proved. Two findings of this check are OPEN, each behind a switch that defaults to the tree as it is: (1) "
+    "GenotypesPLINK cuts a region text at every ':' and '-' - a contig such as HLA-DRB1, HLA-A*01:01:01:01 or chrUn_KI270-1 "
+    "raises ValueError / TypeError or silently returns the variants of another contig, while the VCF reader answers "
+    "correctly (STRICT_REGION_CONTIG_NAMES, fixes/C08_region_contig_names.patch); (2) simphenotype on a read that matched "
+    "nothing prints no sample for a VCF and n noise-only phenotypes for the PGEN twin (STRICT_CMD_EMPTY_LOAD, "
+    "fixes/C08_simphenotype_empty_load.patch). Two earlier findings were repaired (a sample restriction that selects nobody "
+    "raised inside pgenlib: fix 1b2885e; subset() on the object of a VCF read that matched nothing raised IndexError: fix "
+    "09a826e); the model is the repaired reader (switches STRICT_EMPTY_SAMPLE_SELECTION / STRICT_SUBSET_AFTER_EMPTY_READ "
+    "on) and holds demands the empty result with a warning there too (C08_vcf_read_x_spec / C08_pgen_read_x_spec state the "
+    "repaired readers without the hypothesis selected_samples <> [] that the theorems about the unrepaired readers carry)."
 )
 TECHNIQUE = "Coq proof by induction on record lists + vm_compute-evaluated correspondence against haptools on pysam/pgenlib-written files"
